@@ -82,7 +82,7 @@ Proof.
   intros I. destr_all st m. destruct I. unfold pp_inv, cp_inv in *. cbn in *. subst.
   unfold step_c. cbn. destruct cp0 as [|r|r nxt|x nxt]; cbn in *.
   - (* CIdle: load read_ptr_ *)
-    subst cin0. cbn. eexists. exists R. split; [reflexivity|].
+    destruct i_cp as [Hc0 Hh0]. subst cin0 chead0. cbn. eexists. exists R. split; [reflexivity|].
     constructor; cbn; auto; try lia.
     + repeat split; auto. intros. apply Nat.eqb_eq. lia.
   - (* CGotR: load write_ptr_, empty test *)
